@@ -539,6 +539,12 @@ class Scheduler:
                 if extent * 4 > 1e5:
                     sx = Fraction(1, r.randint(2, 8)) if numeric != "float" else r.uniform(0.1, 0.5)
                     return {"op": "scale", "a": a, "sx": J(sx), "sy": J(sx)}
+            if r.random() < 0.1:
+                # one float and one rational factor: vertices with one float and one rational
+                # coordinate (Point2D keeps both kinds)
+                fl, ra = r.uniform(0.5, 2.0), Fraction(r.randint(1, 4), r.randint(1, 4))
+                sx, sy = (fl, ra) if r.random() < 0.5 else (ra, fl)
+                return {"op": "scale", "a": a, "sx": J(sx), "sy": J(sy)}
             if r.random() < 0.06:
                 near = [1, 1, 1.0, 1 + 1e-12, Fraction(10**9 + 1, 10**9), Fraction(10**6 - 1, 10**6)]
                 return {"op": "scale", "a": a, "sx": J(r.choice(near)), "sy": J(r.choice(near))}
